@@ -227,6 +227,7 @@ func runC11(p *load.Program, r *oblig.Report) {
 	c.ruleR7()
 	c17StaleSize(p, r, "C11.R8 drains start from an exact remaining size")
 	c.ruleR9("C11.R9 a response-level error code is reported to the caller")
+	c.ruleR10()
 }
 
 // ruleR1: broker errors raised mid-frame are followed by a drain.
@@ -249,6 +250,21 @@ func (c *c11ctx) ruleR1() {
 	counts := map[string]int{}
 	for _, fn := range fns {
 		inCtx := c.inReaderContext(fn) || fn == batchWith
+		inline := false
+		if !inCtx && fn.Parent() == nil && fn.Signature.Recv() != nil && an.NamedIs(fn.Signature.Recv().Type(), load.ModPath, "Conn") && an.RefFuncName(fn) != "do" {
+			// a Conn method that waits for the response itself and decodes it inline (ApiVersions)
+			an.EachInstr(fn, func(ins ssa.Instruction) {
+				if call, ok := ins.(*ssa.Call); ok && call.Parent() == fn && call.Call.StaticCallee() != nil && an.RefFuncName(call.Call.StaticCallee()) == "waitResponse" {
+					inCtx, inline = true, true
+				}
+			})
+		}
+		// a function that holds the read lock itself releases it when it returns: the search never continues in its
+		// callers (what they read or drain belongs to another response)
+		depth := 4
+		if inline {
+			depth = 0
+		}
 		if !inCtx {
 			continue
 		}
@@ -285,14 +301,14 @@ func (c *c11ctx) ruleR1() {
 				r.Undecided(rule, construct, pos, "the branch that raises the error was not recognised")
 				return
 			}
-			hit, path := c.forwardFind(fn, succ, -1, c.consumes, 4, map[*ssa.Function]bool{})
+			hit, path := c.forwardFind(fn, succ, -1, c.consumes, depth, map[*ssa.Function]bool{})
 			if hit == nil {
 				r.OK(rule, construct, pos, "no byte of the frame is consumed on the success continuation after this point: the error is raised at the end of the frame")
 				return
 			}
 			witness := fmt.Sprintf("success continuation still consumes bytes: %s at %s (%s)", an.CalleeName(hit.(*ssa.Call).Common()), p.Pos(hit.Pos()), strings.Join(path, " ; "))
 			// error path: a drain before control returns to do()/the Batch
-			dhit, dpath := c.forwardFind(fn, mi.Block(), indexIn(mi), c.isDrain, 4, map[*ssa.Function]bool{})
+			dhit, dpath := c.forwardFind(fn, mi.Block(), indexIn(mi), c.isDrain, depth, map[*ssa.Function]bool{})
 			if dhit != nil {
 				r.OK(rule, construct, pos, witness, fmt.Sprintf("drain on the error path: %s (%s)", p.Pos(dhit.Pos()), strings.Join(dpath, " ; ")))
 				return
@@ -969,4 +985,83 @@ func (c *c11ctx) ruleR9(rule string) {
 			"if response.ErrorCode != 0 { return …, Error(response.ErrorCode) } on the err == nil path", where)
 	}
 	r.RequireCount(rule, n, 5)
+}
+
+// ruleR10: the remainder of a fetch response is drained (or the connection closed) by Batch.close only, and only when
+// the Batch has a message set reader. So (a) newMessageSetReader hands out its reader even when reading the first
+// header failed — the error may be turned into a time-out that keeps the connection — and (b) every function that
+// obtains a Batch and does not hand it to its caller closes it on every path (the read lock is released there too).
+func (c *c11ctx) ruleR10() {
+	const rule = "C11.R10 every fetch response reaches Batch.close with its reader"
+	p, r := c.p, c.r
+	nm := p.Func("", "newMessageSetReader")
+	if nm == nil {
+		r.Lost(rule, "kafka.newMessageSetReader")
+	} else {
+		nRet := 0
+		var bad []string
+		an.EachInstr(nm, func(ins ssa.Instruction) {
+			ret, ok := ins.(*ssa.Return)
+			if !ok || ret.Parent() != nm || len(ret.Results) != 2 {
+				return
+			}
+			nRet++
+			if an.IsNilConst(an.RetVal(ret, 0)) {
+				bad = append(bad, "nil reader returned at "+p.Pos(ret.Pos()))
+			}
+		})
+		r.Check(nRet > 0 && len(bad) == 0, rule, "kafka.newMessageSetReader returns the reader on every path, also together with an error", p.Pos(nm.Pos()),
+			"return res, err", strings.Join(bad, "; "))
+	}
+	root := p.SSAPkg("")
+	n := 0
+	for _, fn := range p.ModuleFunctions() {
+		if fn.Pkg != root || fn.Parent() != nil {
+			continue
+		}
+		var got []*ssa.Call
+		an.EachInstr(fn, func(ins ssa.Instruction) {
+			call, ok := ins.(*ssa.Call)
+			if !ok || call.Call.StaticCallee() == nil {
+				return
+			}
+			sc := call.Call.StaticCallee()
+			if sc.Signature.Recv() != nil && an.NamedIs(sc.Signature.Recv().Type(), load.ModPath, "Conn") && (an.RefFuncName(sc) == "ReadBatch" || an.RefFuncName(sc) == "ReadBatchWith") {
+				got = append(got, call)
+			}
+		})
+		for _, call := range got {
+			// handed to the caller?
+			returned := false
+			for _, ref := range an.UsesOf(call) {
+				if _, isRet := ref.(*ssa.Return); isRet {
+					returned = true
+				}
+			}
+			if returned {
+				continue
+			}
+			n++
+			isClose := func(i ssa.Instruction) bool {
+				var cc *ssa.CallCommon
+				switch x := i.(type) {
+				case *ssa.Call:
+					cc = &x.Call
+				case *ssa.Defer:
+					cc = &x.Call
+				default:
+					return false
+				}
+				sc := cc.StaticCallee()
+				return sc != nil && an.RefFuncName(sc) == "Close" && sc.Signature.Recv() != nil && an.NamedIs(sc.Signature.Recv().Type(), load.ModPath, "Batch") && len(cc.Args) > 0 && cc.Args[0] == ssa.Value(call)
+			}
+			ok, badAt := an.MustPass(fn, an.PointOf(call), isClose, nil)
+			where := ""
+			if badAt != nil {
+				where = "the exit at " + p.Pos(badAt.Pos()) + " is reached without batch.Close()"
+			}
+			r.Check(ok, rule, an.ShortFunc(fn)+" closes the batch it read on every path", p.Pos(call.Pos()), "batch.Close() (which drains the response and releases the read lock) before every return", where)
+		}
+	}
+	r.RequireCount(rule, n, 2)
 }
